@@ -79,7 +79,14 @@ Hypothesis I_intercept : forall w Xw w' Xw', I w Xw -> intercept_update cfg K w 
 (* an accepted extrapolated point: its objective is strictly below the objective of an invariant point *)
 Hypothesis I_accept : forall w Xw w_acc Xw_acc p_obj p_obj_acc,
   I w Xw -> objective cfg K w Xw = Ok p_obj -> objective cfg K w_acc Xw_acc = Ok p_obj_acc ->
-  elt p_obj_acc p_obj = true -> I w_acc Xw_acc.
+  elt p_obj_acc p_obj = true -> length w_acc = length w -> I w_acc Xw_acc.
+
+Lemma scatter_length {B} (l : list B) idxs vals l' : scatter l idxs vals = Ok l' -> length l' = length l.
+Proof.
+  revert l vals. induction idxs as [|i r IH]; intros l vals H0; destruct vals; simpl in H0; try discriminate.
+  - inversion H0; reflexivity.
+  - apply bind_ok in H0 as (l1 & Hs & H0). rewrite (IH _ _ H0). eapply set_idx_length; eauto.
+Qed.
 
 Lemma inner_step_I lip ws ws_size sc epoch w Xw a w' Xw' a' acc brk :
   I w Xw -> inner_step cfg K lip ws ws_size sc epoch w Xw a = Ok (w', Xw', a', acc, brk) -> I w' Xw'.
@@ -95,7 +102,7 @@ Proof.
   { destruct ext.
     - apply bind_ok in H4 as (pobj & Ho & H4). apply bind_ok in H4 as (w_acc & Hsc & H4).
       apply bind_ok in H4 as (pacc & Hoa & H4). destruct (elt pacc pobj) eqn:Hlt; inversion H4; subst.
-      + eapply I_accept; eauto.
+      + eapply I_accept; eauto. rewrite (scatter_length _ _ _ _ Hsc). unfold vzeros, zlen. rewrite repeat_length, Nat2Z.id. reflexivity.
       + assumption.
     - inversion H4; subst. assumption. }
   destruct (Nat.modulo epoch 10 =? 0)%nat.
